@@ -12,7 +12,10 @@ def opFen (args : List String) : String :=
   match args with
   | [h] =>
     match parseFen K (unhexBytes h) with
-    | .ok p => s!"m.res=ok m.fen={fenField (fenText p)} m.dump={dumpPos p} m.wf={boolStr (WF p)}"
+    | .ok p =>
+      let legal := Fide.wellFormed (absPos p) && WF p && p.ply / 2 + 1 ≤ 128
+      s!"m.res=ok m.fen={fenField (fenText p)} m.dump={dumpPos p} m.wf={boolStr (WF p)}" ++
+      (if legal then s!" s.fen={fenField (Fide.toFen (absPos p))}" else "")
     | .error => "m.res=error"
     | .panic => "m.res=panic"
   | _ => "bad-op"
